@@ -1,5 +1,5 @@
 (* C19 proofs: the normalisation patterns are, in every field, the documented function of the fused operator. *)
-From Coq Require Import List Field Ring ZArith Bool.
+From Coq Require Import List Field Ring ZArith Bool Arith Lia.
 Require Import OV.Fusion.Field OV.Fusion.Norm.
 Import ListNotations.
 
@@ -101,16 +101,64 @@ End Laws.
 
 (* ---- the side conditions are what makes the fused operator applicable ------------------------------------ *)
 (* whenever RmsNormFusion fires, stash_type is FLOAT or DOUBLE (what ORT's kernel requires), axis is -1 *)
-Lemma rms_check_sound : forall x s c e ax st,
-  rms_check_rewrite x s c e = Some (ax, st) -> ax = (-1)%Z /\ (st = 1 \/ st = 11)%Z /\ e = true
+Lemma rms_check_sound : forall g x s c e rx re rs ax st,
+  rms_check_rewrite g x s c e rx re rs = Some (ax, st) -> ax = (-1)%Z /\ (st = 1 \/ st = 11)%Z /\ e = true
   /\ is_float_type x = true /\ is_float_type s = true.
 Proof.
-  intros x s c e ax st. unfold rms_check_rewrite.
+  intros g x s c e rx re rs ax st. unfold rms_check_rewrite.
   destruct e; simpl; [|discriminate].
   destruct (is_float_type x) eqn:Hx; simpl; [|discriminate].
   destruct (is_float_type s) eqn:Hs; simpl; [|discriminate].
-  destruct c as [c|]; [destruct c | destruct x]; simpl; intro H; inversion H; auto 10.
+  destruct (negb g || (keeps_rank re rx && keeps_rank rs rx)); rewrite ?andb_true_r, ?andb_false_r;
+    destruct c as [c|]; [destruct c | destruct x | destruct c | destruct x]; simpl; intro H; inversion H; auto 10.
 Qed.
+
+(* the repair (rank_guard = true): an accepted match cannot gain dimensions by broadcasting epsilon or scale -- the rank
+   of the pattern's result is the rank of x, which is the rank of the fused operator's output *)
+Lemma keeps_rank_le : forall v x r n, keeps_rank v x = true -> v = Some r -> x = Some n -> 1 <= n -> r <= n.
+Proof.
+  intros v x r n H -> -> Hn. simpl in H. apply orb_prop in H. destruct H as [H|H]; apply Nat.leb_le in H; lia.
+Qed.
+Theorem rms_rank_guard_sufficient : forall x s c e rx re rs n a b r,
+  rms_check_rewrite true x s c e rx re rs = Some r -> rx = Some n -> re = Some a -> rs = Some b -> 1 <= n ->
+  bc_rank n a b = n.
+Proof.
+  intros x s c e rx re rs n a b r H Hx He Hs Hn. unfold rms_check_rewrite in H.
+  match type of H with (if ?c then _ else _) = _ => destruct c eqn:E; [|discriminate] end.
+  apply andb_prop in E. destruct E as [_ E]. simpl in E. apply andb_prop in E. destruct E as [E1 E2].
+  pose proof (keeps_rank_le _ _ _ _ E1 He Hx Hn). pose proof (keeps_rank_le _ _ _ _ E2 Hs Hx Hn).
+  unfold bc_rank. lia.
+Qed.
+Theorem ln_rank_guard_sufficient : forall x e rx re rs n a b r,
+  ln_check_rewrite true x e rx re rs = Some r -> rx = Some n -> re = Some a -> rs = Some b -> 1 <= n ->
+  bc_rank n a b = n.
+Proof.
+  intros x e rx re rs n a b r H Hx He Hs Hn. unfold ln_check_rewrite in H.
+  match type of H with (if ?c then _ else _) = _ => destruct c eqn:E; [|discriminate] end.
+  apply andb_prop in E. destruct E as [_ E]. simpl in E. apply andb_prop in E. destruct E as [E1 E2].
+  pose proof (keeps_rank_le _ _ _ _ E1 He Hx Hn). pose proof (keeps_rank_le _ _ _ _ E2 Hs Hx Hn).
+  unfold bc_rank. lia.
+Qed.
+Theorem ln_bias_rank_guard_sufficient : forall rx rb n b,
+  ln_bias_check true rx rb = true -> rx = Some n -> rb = Some b -> 1 <= n -> Nat.max n b = n.
+Proof.
+  intros rx rb n b H Hx Hb Hn. unfold ln_bias_check in H. simpl in H.
+  pose proof (keeps_rank_le _ _ _ _ H Hb Hx Hn). lia.
+Qed.
+(* FINDING (known, C19:*:epsilon-or-scale-rank-exceeds-input-rank): as read (rank_guard = false) the checks accept x of rank 3
+   with an epsilon of rank 4 -- the pattern's result then has rank 4, the fused operator's rank 3; the repair refuses it *)
+Theorem rms_rank_as_read_refuted : exists n a b,
+  rms_check_rewrite false FLOAT FLOAT None true (Some n) (Some a) (Some b) <> None /\ 1 <= n /\ bc_rank n a b <> n
+  /\ rms_check_rewrite true FLOAT FLOAT None true (Some n) (Some a) (Some b) = None.
+Proof. exists 3, 4, 1. repeat split; vm_compute; try discriminate; try lia; reflexivity. Qed.
+Theorem ln_rank_as_read_refuted : exists n a b,
+  ln_check_rewrite false FLOAT true (Some n) (Some a) (Some b) <> None /\ 1 <= n /\ bc_rank n a b <> n
+  /\ ln_check_rewrite true FLOAT true (Some n) (Some a) (Some b) = None
+  /\ ln_bias_check false (Some n) (Some a) = true /\ ln_bias_check true (Some n) (Some a) = false.
+Proof. exists 3, 4, 1. repeat split; vm_compute; try discriminate; try lia; reflexivity. Qed.
+Example rms_rank_guard_fires : rms_check_rewrite true FLOAT16 FLOAT16 (Some FLOAT) true (Some 3) (Some 0) (Some 1) = Some ((-1)%Z, 1%Z)
+  /\ rms_check_rewrite true FLOAT FLOAT None true (Some 3) (Some 3) (Some 3) = Some ((-1)%Z, 1%Z).
+Proof. split; vm_compute; reflexivity. Qed.
 
 (* skip fusions fire only when input/skip are rank 3 of one shape [B,S,D] and gamma/beta/bias are [D] *)
 Lemma bind_dims_length : forall actual names b b', bind_dims b actual names = Some b' -> length actual = length names.
@@ -147,6 +195,41 @@ Proof.
   apply check_shape_some in E1. destruct E1 as (x0 & si & _ & -> & Li).
   exists si, ss, sg. repeat split; auto.
 Qed.
+
+(* check()-sufficiency for the skip fusions: an accepted match has input = skip = [B,S,D] and gamma (beta, bias) = [D] with
+   the SAME D -- the documented operand shapes of Skip(Simplified)LayerNormalization, and exactly the situation in which every
+   row of the last axis is computed from rows of equal length, which is what skip_*_norm_identity is about *)
+Lemma zshape_eqb_refl : forall a, zshape_eqb a a = true.
+Proof. unfold zshape_eqb. induction a; simpl; auto. rewrite Z.eqb_refl. auto. Qed.
+Theorem skip_check_sufficient : forall hb ln i s g be bi st,
+  skip_check hb ln (Some i) (Some s) (Some g) be bi st = true ->
+  exists B S D, i = [B; S; D] /\ s = [B; S; D] /\ g = [D] /\ (ln = true -> be = Some [D]) /\ (hb = true -> bi = Some [D]) /\ st = 1%Z
+    /\ skip_op_ok ln i s g (if ln then be else None) (if hb then bi else None) = true.
+Proof.
+  intros hb ln i s g be bi st H. unfold skip_check in H.
+  destruct i as [|a [|b [|c [|? ?]]]]; try (destruct ln, hb; simpl in H; discriminate).
+  destruct s as [|a' [|b' [|c' [|? ?]]]];
+    try (destruct ln, hb; simpl in H; repeat (match type of H with context [Z.eqb ?x ?y] => destruct (Z.eqb x y) end; simpl in H); discriminate).
+  simpl in H.
+  destruct (Z.eqb a' a) eqn:Ea; [|destruct ln, hb; simpl in H; discriminate]. simpl in H.
+  destruct (Z.eqb b' b) eqn:Eb; [|destruct ln, hb; simpl in H; discriminate]. simpl in H.
+  destruct (Z.eqb c' c) eqn:Ec; [|destruct ln, hb; simpl in H; discriminate]. simpl in H.
+  apply Z.eqb_eq in Ea, Eb, Ec. subst a' b' c'.
+  destruct g as [|d [|? ?]];
+    try (destruct ln, hb; simpl in H; repeat (match type of H with context [Z.eqb ?x ?y] => destruct (Z.eqb x y) end; simpl in H); discriminate).
+  simpl in H.
+  destruct (Z.eqb d c) eqn:Ed; [|destruct ln, hb; simpl in H; discriminate]. apply Z.eqb_eq in Ed. subst d. simpl in H.
+  exists a, b, c.
+  destruct ln, hb; destruct be as [[|e [|? ?]]|]; destruct bi as [[|f [|? ?]]|]; simpl in H;
+    repeat match type of H with context [Z.eqb ?x ?y] => let E := fresh "E" in destruct (Z.eqb x y) eqn:E; simpl in H end;
+    try discriminate;
+    repeat match goal with E : Z.eqb _ _ = true |- _ => apply Z.eqb_eq in E end; subst;
+    repeat split; auto; try (intro; discriminate); simpl; rewrite ?Z.eqb_refl; reflexivity.
+Qed.
+Example skip_check_sufficient_satisfiable :
+  skip_check true true (Some [2; 3; 8]%Z) (Some [2; 3; 8]%Z) (Some [8]%Z) (Some [8]%Z) (Some [8]%Z) 1 = true
+  /\ skip_check false false (Some [-2; -3; 8]%Z) (Some [-2; -3; 8]%Z) (Some [8]%Z) None None 1 = true.
+Proof. split; vm_compute; reflexivity. Qed.
 
 (* ---- non-vacuity: the field hypothesis is satisfiable (Qc) and the identity is not 0 = 0 there ------------ *)
 From Coq Require Import QArith Qcanon.
